@@ -1,7 +1,17 @@
 // project replays ProjectCases.tla: documents are JSON objects whose top-level field set is given
-// by the case and whose values come from a palette of JSON shapes; the field filter is applied
-// (a) by GrpcV1.Fetch with FieldsFilter and (b) by the proxy Search with a `| fields ...` pipe, and the
-// returned documents are compared structurally with the projection the specification requires.
+// by the case and whose values come from a palette of JSON shapes; the abstract field names of the
+// case are concretised inside their class (white-space-only names, padded names, names containing a
+// separator, ...).  The field filter is applied
+//
+//	(a) by the store's GrpcV1.Fetch with FieldsFilter,
+//	(b) by search.Ingestor.Search with a `| fields ...` pipe (in process),
+//	(c) by the proxy's public Fetch API: proxyapi grpcV1.Fetch over gRPC and behind the HTTP gateway /fetch,
+//	(d) by the proxy's public Search, ComplexSearch and Export APIs (gRPC) and the HTTP gateway /search
+//	    with the pipe in the query text,
+//
+// and the returned documents are compared structurally with the projection the specification requires;
+// identifiers and their order must be those of the run without a filter, and a case without a filter
+// must return the stored bytes.
 package main
 
 import (
@@ -14,8 +24,13 @@ import (
 	"os"
 	"reflect"
 	"sort"
+	"strconv"
 	"strings"
+	"unicode/utf8"
 
+	"go.uber.org/zap/zapcore"
+
+	"github.com/ozontech/seq-db/logger"
 	pb "github.com/ozontech/seq-db/pkg/storeapi"
 	"github.com/ozontech/seq-db/seq"
 
@@ -23,7 +38,9 @@ import (
 )
 
 type Case struct {
-	Docs [][]string `json:"docs"`
+	U    string      `json:"u"`
+	Docs [][]string  `json:"docs"`
+	Cls  [][2]string `json:"cls"`
 	Flt  struct {
 		Fields []string `json:"fields"`
 		Allow  bool     `json:"allow"`
@@ -36,7 +53,46 @@ var palette = []string{
 	`"plain"`, `"esc \" \\ \/ \b\f\n\r\t end"`, `"é日本 😀"`, `"日本語 ünï"`, `""`,
 	`0`, `-0`, `12`, `-3.25`, `1e3`, `1E-2`, `123456789012345678901234567890`, `0.1000`,
 	`true`, `false`, `null`, `[]`, `{}`, `[1,"a",{"a":2,"b":[null]}]`, `{"a":{"b":{"c":"deep"}},"b":[1,2]}`,
-	`"with,comma and | pipe"`, `" lead/trail "`,
+	`"with,comma and | pipe"`, `" lead/trail "`, `{"":1," ":[2],"a":{"":null}}`,
+}
+
+// representatives inside the name classes of ProjectCases.tla (Class)
+var (
+	wsReps    = []string{" ", "\t", "  ", "\n", "\u00a0", " \t", "\r\n"} // a key of white space only
+	padReps   = []string{" ", "\t", "  ", "\u00a0"}                     // white space in front of / behind a name
+	sepReps   = []string{",", ";", "|", ", "}                            // list separators inside one name
+	pathReps  = []string{".", "/", ":", ".."}                           // path separators inside one name
+	innerReps = []string{" ", "\t", "  "}                               // white space inside one name
+)
+
+// concrete gives the concrete key for the abstract name `n` of class `cls` in corpus number `k`.
+func concrete(n, cls string, k int) string {
+	r := *seed + k
+	switch cls {
+	case "plain", "empty":
+		return n
+	case "ws":
+		return wsReps[r%len(wsReps)]
+	case "padded": // " a": the pad in front, behind or on both sides
+		base := strings.TrimSpace(n)
+		pad := padReps[r%len(padReps)]
+		switch (r / len(padReps)) % 3 {
+		case 0:
+			return pad + base
+		case 1:
+			return base + pad
+		}
+		return pad + base + pad
+	case "sep":
+		return strings.ReplaceAll(n, ",", sepReps[r%len(sepReps)])
+	case "path":
+		return strings.ReplaceAll(n, ".", pathReps[r%len(pathReps)])
+	case "innerws":
+		return strings.ReplaceAll(n, " ", innerReps[r%len(innerReps)])
+	}
+	emit(map[string]any{"infra": "unknown name class " + cls})
+	os.Exit(3)
+	return ""
 }
 
 var seed = flag.Int("seed", 1, "")
@@ -101,15 +157,77 @@ func equal(a, b any) bool {
 	}
 }
 
-func quoteField(f string) string { return f }
+// jsonKey spells a key as a JSON string; `esc` spells its first character as a \uXXXX escape.
+func jsonKey(f string, esc bool) string {
+	q := func(s string) string {
+		var b bytes.Buffer
+		e := json.NewEncoder(&b)
+		e.SetEscapeHTML(false)
+		_ = e.Encode(s)
+		return strings.TrimSuffix(b.String(), "\n")
+	}
+	if esc && f != "" {
+		r, size := utf8.DecodeRuneInString(f)
+		if r != utf8.RuneError && r < 0x10000 {
+			return fmt.Sprintf(`"\u%04x`, r) + q(f[size:])[1:]
+		}
+	}
+	return q(f)
+}
+
+var seqqlKeywords = map[string]bool{"or": true, "and": true, "not": true, "fields": true, "except": true}
+
+// pipeName spells a field name inside a `| fields` pipe: bare where the grammar allows it, otherwise
+// (and sometimes anyway) quoted in one of the grammar's quoting styles.
+func pipeName(f string, style int) string {
+	bare := f != "" && !seqqlKeywords[strings.ToLower(f)]
+	for _, r := range f {
+		if !(r == '_' || r == '.' || r >= '0' && r <= '9' || r >= 'a' && r <= 'z' || r >= 'A' && r <= 'Z') {
+			bare = false
+		}
+	}
+	if bare && style%4 != 3 {
+		return f
+	}
+	special := strings.ContainsAny(f, "\\\"'`*")
+	switch style % 3 {
+	case 0: // double quotes with escapes
+		return strings.ReplaceAll(strconv.Quote(f), "*", `\*`)
+	case 1: // raw string
+		if !special {
+			return "`" + f + "`"
+		}
+	case 2: // the characters as they are between double / single quotes
+		if !special {
+			if style%2 == 0 {
+				return `"` + f + `"`
+			}
+			return `'` + f + `'`
+		}
+	}
+	return strings.ReplaceAll(strconv.Quote(f), "*", `\*`)
+}
+
+type corpus struct {
+	idx    int
+	ids    []seq.ID
+	order  []seq.ID // ids in the order of a search without a pipe (desc)
+	concr  map[string]string
+	bodies map[seq.ID]string
+}
 
 func main() {
 	progress := flag.Bool("progress", false, "")
+	noAPI := flag.Bool("noapi", false, "skip the public proxy API paths")
 	flag.Int("workers", 1, "")
+	verbose := flag.Bool("v", false, "keep the log of the real code")
 	flag.Parse()
+	if !*verbose {
+		logger.SetLevel(zapcore.FatalLevel)
+	}
 	sc := bufio.NewScanner(os.Stdin)
 	sc.Buffer(make([]byte, 1<<20), 1<<26)
-	// one store for the whole run: documents are keyed by (case group = field sets) -> reuse by content
+	// one store for the whole run: one bulk per corpus (case group = universe + field sets)
 	e, err := env.New(env.Opts{SkipFsync: true})
 	if err != nil {
 		emit(map[string]any{"infra": err.Error()})
@@ -117,10 +235,18 @@ func main() {
 	}
 	defer e.Close()
 	ing := env.NewProxy([][]*env.Env{{e}})
-	stored := map[string][]seq.ID{} // docs key -> ids
-	bodies := map[seq.ID]string{}
+	var api *apiEnv
+	if !*noAPI {
+		api, err = newAPIEnv(e)
+		if err != nil {
+			emit(map[string]any{"infra": "proxy api: " + err.Error()})
+			os.Exit(3)
+		}
+	}
+	stored := map[string]*corpus{}
 	next := uint64(1)
 	n, evals, nontriv := 0, 0, 0
+	pp := env.ProxyParams{Params: env.Params{From: 0, To: 1 << 40, Order: "desc"}, Size: 10, Fetch: true}
 	for sc.Scan() {
 		line := sc.Text()
 		if !strings.HasPrefix(line, "{") {
@@ -134,12 +260,27 @@ func main() {
 		if *progress {
 			emit(map[string]any{"begin": n})
 		}
-		key, _ := json.Marshal(c.Docs)
-		ids, ok := stored[string(key)]
+		kb, _ := json.Marshal([]any{c.U, c.Docs})
+		key := string(kb)
+		cp, ok := stored[key]
 		if !ok {
+			cp = &corpus{idx: len(stored), concr: map[string]string{}, bodies: map[seq.ID]string{}}
+			seen := map[string]string{}
+			for _, nc := range c.Cls {
+				k := concrete(nc[0], nc[1], cp.idx)
+				if other, dup := seen[k]; dup {
+					emit(map[string]any{"infra": fmt.Sprintf("names %q and %q concretise to the same key %q", other, nc[0], k)})
+					os.Exit(3)
+				}
+				seen[k] = nc[0]
+				cp.concr[nc[0]] = k
+			}
 			var bulk []env.Doc
 			for di, fields := range c.Docs {
-				fs := append([]string(nil), fields...)
+				fs := make([]string, 0, len(fields))
+				for _, f := range fields {
+					fs = append(fs, cp.concr[f])
+				}
 				sort.Strings(fs)
 				// field order inside the document varies with the seed
 				if (*seed+di)%2 == 1 {
@@ -154,63 +295,105 @@ func main() {
 						b.WriteString(",")
 					}
 					val := palette[(*seed*7+int(next)*3+fi*5)%len(palette)]
-					key := fmt.Sprintf("%q", f)
-					if (*seed+int(next)+fi)%3 == 0 {
-						// the same key spelled with a JSON escape (\u0061 is "a")
-						key = fmt.Sprintf(`"\u%04x"`, f[0]) + ""
-						if len(f) > 1 {
-							key = key[:len(key)-1] + f[1:] + `"`
-						}
-					}
-					fmt.Fprintf(&b, "%s:%s", key, val)
+					// every third key is spelled with a JSON escape (a is "a")
+					fmt.Fprintf(&b, "%s:%s", jsonKey(f, (*seed+int(next)+fi)%3 == 0), val)
 				}
 				b.WriteString("}")
-				d := env.Doc{MID: 1000 + next, RID: next, Tok: map[string][]string{"k": {fmt.Sprintf("c%d", len(stored))}}, Body: b.String()}
+				d := env.Doc{MID: 1000 + next, RID: next, Tok: map[string][]string{"k": {fmt.Sprintf("c%d", cp.idx)}}, Body: b.String()}
 				next++
 				bulk = append(bulk, d)
-				ids = append(ids, d.ID())
-				bodies[d.ID()] = d.Body
+				cp.ids = append(cp.ids, d.ID())
+				cp.bodies[d.ID()] = d.Body
 			}
 			if err := e.Bulk(bulk); err != nil {
 				emit(map[string]any{"infra": "bulk: " + err.Error()})
 				os.Exit(3)
 			}
 			e.WaitIdle()
-			if len(stored)%2 == 1 {
+			if cp.idx%2 == 1 {
 				e.Seal()
 			}
-			stored[string(key)] = ids
+			// the reference for "set and order of returned documents": a search without a pipe
+			q0, _, err0 := env.ProxySearch(ing, fmt.Sprintf("k:c%d", cp.idx), pp)
+			if err0 != nil || len(q0.IDs) != len(cp.ids) {
+				emit(map[string]any{"infra": fmt.Sprintf("search without a pipe: %v (%d ids)", err0, len(q0.IDs))})
+				os.Exit(3)
+			}
+			for _, id := range q0.IDs {
+				cp.order = append(cp.order, id.ID)
+			}
+			stored[key] = cp
 		}
-		groupTok := "c" + fmt.Sprint(indexOf(stored, string(key), ids))
-		_ = groupTok
-		check := func(path string, docs [][]byte) {
+		ids := cp.ids
+		nofilter := len(c.Flt.Fields) == 0
+		fields := make([]string, 0, len(c.Flt.Fields))
+		for _, f := range c.Flt.Fields {
+			fields = append(fields, cp.concr[f])
+		}
+		// check compares the documents (aligned with the case's ids) with the specification's projection;
+		// exact: the bytes must be the stored ones (case without a filter on a path that hands bytes through)
+		check := func(path string, docs [][]byte, exact bool) {
 			evals++
 			if len(docs) != len(ids) {
-				emit(map[string]any{"n": n, "path": path, "what": fmt.Sprintf("got %d documents for %d ids", len(docs), len(ids))})
+				emit(map[string]any{"n": n, "path": path, "what": fmt.Sprintf("got %d documents for %d ids", len(docs), len(ids)), "fields": fields, "allow": c.Flt.Allow})
 				return
 			}
 			for i := range ids {
-				orig, _ := decode([]byte(bodies[ids[i]]))
+				if nofilter && exact {
+					if string(docs[i]) != cp.bodies[ids[i]] {
+						emit(map[string]any{"n": n, "path": path, "what": "document changed without a filter", "doc": string(docs[i]), "orig": cp.bodies[ids[i]]})
+						return
+					}
+					continue
+				}
+				orig, _ := decode([]byte(cp.bodies[ids[i]]))
 				om := orig.(map[string]any)
 				want := map[string]any{}
+				var wantNames []string
 				for _, f := range c.Exp[i] {
-					want[f] = om[f]
+					want[cp.concr[f]] = om[cp.concr[f]]
+					wantNames = append(wantNames, cp.concr[f])
 				}
+				rep := map[string]any{"n": n, "path": path, "doc": string(docs[i]), "orig": cp.bodies[ids[i]], "fields": fields, "allow": c.Flt.Allow, "want_fields": wantNames}
 				got, err := decode(docs[i])
 				if err != nil {
-					emit(map[string]any{"n": n, "path": path, "what": "result is not valid JSON: " + err.Error(), "doc": string(docs[i]), "orig": bodies[ids[i]]})
+					rep["what"] = "result is not valid JSON: " + err.Error()
+					emit(rep)
 					return
 				}
 				gm, isObj := got.(map[string]any)
 				if !isObj {
-					emit(map[string]any{"n": n, "path": path, "what": "result is not a JSON object", "doc": string(docs[i]), "orig": bodies[ids[i]]})
+					rep["what"] = "result is not a JSON object"
+					emit(rep)
 					return
 				}
 				if !equal(gm, want) {
-					emit(map[string]any{"n": n, "path": path, "what": "projection differs", "doc": string(docs[i]), "orig": bodies[ids[i]], "want_fields": c.Exp[i]})
+					rep["what"] = "projection differs"
+					emit(rep)
 					return
 				}
 			}
+		}
+		// alignIDs brings documents returned in search order into the order of the case's ids and
+		// checks that identifiers and their order are those of the search without a pipe
+		alignIDs := func(path string, got []seq.ID, docs [][]byte) ([][]byte, bool) {
+			if fmt.Sprint(got) != fmt.Sprint(cp.order) {
+				emit(map[string]any{"n": n, "path": path, "what": "set/order of returned ids differs from the search without a pipe", "got": fmt.Sprint(got), "exp": fmt.Sprint(cp.order), "fields": fields, "allow": c.Flt.Allow})
+				return nil, false
+			}
+			byID := map[seq.ID][]byte{}
+			for i, id := range got {
+				if i < len(docs) {
+					byID[id] = docs[i]
+				}
+			}
+			var aligned [][]byte
+			for _, id := range ids {
+				if d, ok := byID[id]; ok {
+					aligned = append(aligned, d)
+				}
+			}
+			return aligned, true
 		}
 		nt := false
 		for i := range c.Exp {
@@ -221,68 +404,89 @@ func main() {
 		if nt {
 			nontriv++
 		}
+		// the query text: keyword case and the quoting of the names vary
+		query := fmt.Sprintf("k:c%d", cp.idx)
+		if !nofilter {
+			kw := []string{"fields", "FIELDS", "Fields"}[(n+*seed)%3]
+			query += " | " + kw + " "
+			if !c.Flt.Allow {
+				query += []string{"except ", "EXCEPT ", "Except "}[(n/3+*seed)%3]
+			}
+			for i, f := range fields {
+				if i > 0 {
+					query += []string{", ", ",", " , "}[(n/7+i)%3]
+				}
+				query += pipeName(f, n/5+i+*seed)
+			}
+		}
 		// (a) store fetch with a field filter
-		docs, _, err := e.Fetch(ids, &pb.FetchRequest_FieldsFilter{Fields: c.Flt.Fields, AllowList: c.Flt.Allow})
+		var sf *pb.FetchRequest_FieldsFilter
+		if !nofilter {
+			sf = &pb.FetchRequest_FieldsFilter{Fields: fields, AllowList: c.Flt.Allow}
+		}
+		docs, _, err := e.Fetch(ids, sf)
 		if err != nil {
 			emit(map[string]any{"n": n, "path": "store-fetch", "what": "error: " + err.Error()})
 		} else {
-			check("store-fetch", docs)
+			check("store-fetch", docs, true)
 		}
-		// (b) proxy search with a fields pipe; ids and order must equal the run without the pipe
-		kw := []string{"fields", "FIELDS", "Fields"}[(n+*seed)%3]
-		pipe := " | " + kw + " "
-		if !c.Flt.Allow {
-			pipe += []string{"except ", "EXCEPT ", "Except "}[(n/3+*seed)%3]
+		// (b) search.Ingestor.Search with a fields pipe
+		path := "proxy-pipe"
+		if nofilter {
+			path = "proxy-nopipe"
 		}
-		pipe += strings.Join(c.Flt.Fields, ", ")
-		base := "k:" + strings.TrimPrefix(tokOf(stored, string(key)), "k:")
-		pp := env.ProxyParams{Params: env.Params{From: 0, To: 1 << 40, Order: "desc"}, Size: 10, Fetch: true}
-		q0, d0, err0 := env.ProxySearch(ing, base, pp)
-		q1, d1, err1 := env.ProxySearch(ing, base+pipe, pp)
-		if err0 != nil || err1 != nil {
-			emit(map[string]any{"n": n, "path": "proxy-pipe", "what": fmt.Sprintf("error: %v / %v", err0, err1)})
-		} else if fmt.Sprint(q0.IDs.IDs()) != fmt.Sprint(q1.IDs.IDs()) {
-			emit(map[string]any{"n": n, "path": "proxy-pipe", "what": "set/order of returned ids changed by the pipe"})
+		q1, d1, err1 := env.ProxySearch(ing, query, pp)
+		if err1 != nil {
+			emit(map[string]any{"n": n, "path": path, "what": fmt.Sprintf("error: %v", err1), "query": query})
 		} else {
-			// without pipe: untouched bytes
-			for i, id := range q0.IDs {
-				if string(d0[i]) != bodies[id.ID] {
-					emit(map[string]any{"n": n, "path": "proxy-nopipe", "what": "document changed without a pipe", "doc": string(d0[i]), "orig": bodies[id.ID]})
+			var got []seq.ID
+			for _, id := range q1.IDs {
+				got = append(got, id.ID)
+			}
+			if aligned, ok := alignIDs(path, got, d1); ok {
+				check(path, aligned, true)
+			}
+		}
+		// (c), (d) the public proxy API
+		if api != nil {
+			for _, p := range apiPaths {
+				// a fetch asks for the ids in ascending or (as a client does after a search) descending order
+				req := ids
+				if p.fetch && n%2 == 1 {
+					req = cp.order
+				}
+				got, docs, exact, err := p.run(api, req, fields, c.Flt.Allow, nofilter, query)
+				if err != nil {
+					emit(map[string]any{"n": n, "path": p.name, "what": "error: " + err.Error(), "query": query, "fields": fields, "allow": c.Flt.Allow})
+					continue
+				}
+				if p.fetch {
+					// a fetch returns the documents in the order of the requested ids
+					if fmt.Sprint(got) != fmt.Sprint(req) {
+						emit(map[string]any{"n": n, "path": p.name, "what": "set/order of fetched ids differs from the request", "got": fmt.Sprint(got), "exp": fmt.Sprint(req), "fields": fields, "allow": c.Flt.Allow})
+						continue
+					}
+					byID := map[seq.ID][]byte{}
+					for i, id := range got {
+						byID[id] = docs[i]
+					}
+					aligned := make([][]byte, 0, len(ids))
+					for _, id := range ids {
+						aligned = append(aligned, byID[id])
+					}
+					check(p.name, aligned, exact)
+				} else if aligned, ok := alignIDs(p.name, got, docs); ok {
+					check(p.name, aligned, exact)
 				}
 			}
-			// align to ids order of the case (search returns desc order)
-			byID := map[seq.ID][]byte{}
-			for i, id := range q1.IDs {
-				if i < len(d1) {
-					byID[id.ID] = d1[i]
-				}
-			}
-			var aligned [][]byte
-			for _, id := range ids {
-				aligned = append(aligned, byID[id])
-			}
-			check("proxy-pipe", aligned)
 		}
 		if *progress {
 			emit(map[string]any{"end": n})
 		}
 		n++
 	}
-	emit(map[string]any{"summary": true, "cases": n, "evals": evals, "nontrivial": nontriv, "corpora": len(stored)})
-}
-
-var order []string
-
-func indexOf(m map[string][]seq.ID, key string, _ []seq.ID) int {
-	for i, k := range order {
-		if k == key {
-			return i
-		}
+	if api != nil {
+		api.stop()
 	}
-	order = append(order, key)
-	return len(order) - 1
-}
-
-func tokOf(m map[string][]seq.ID, key string) string {
-	return fmt.Sprintf("k:c%d", indexOf(m, key, nil))
+	emit(map[string]any{"summary": true, "cases": n, "evals": evals, "nontrivial": nontriv, "corpora": len(stored)})
 }
